@@ -56,7 +56,8 @@ def ser_expr(e, uprops: set | None = None) -> str:  # noqa: PLR0911, PLR0912
     if t is X.Identifier:
         return f"ID {e.value} {enc_opt(e.tag)}"
     if isinstance(e, Rule):
-        return f"RULE {e.name} {e.modifier} {r(e.expression)}"
+        self_map = 0 if type(e).with_children is Rule.with_children else 1
+        return f"RULE {e.name} {e.modifier} {self_map} {r(e.expression)}"
     if t is X.Sequence:
         return f"SEQ {len(e.expressions)}" + "".join(" " + r(x) for x in e.expressions)
     if t is X.Choice:
